@@ -97,6 +97,10 @@ CHECKS = [
           "Runtime monitor: recursive listing (path, size, sha256) of the target directory before and after the real CardanoDatabaseClient::download_unpack on harness-built archives (tar + zstd/gzip served from file://): immutable archives with extra entries (ledger/, volatile/, top-level, nested, out-of-range trios, directories, symlinks, hard links, absolute and .. paths), ancillary archives with unlisted files and every manifest / signature alteration, with and without the ancillary option, faults (truncated archives, absent listed files, blocked moves); oracle: new files must be in-range immutable trios, the client's own markers, or manifest-listed files with matching hash under a manifest whose signature verifies; nothing of a failed ancillary verification may remain.",
           "ten known findings (immutable archives unpacked in place, temp dir left on abort, manifest hash encoding) printed as KNOWN-FINDING; file:// only",
           "runtime monitor: before/after directory listing against an allowed-set oracle on crafted archives", "DESIGN.md §2 C19"),
+    check("C20", "mon-signer", "exploration",
+          "History monitor coupling the REAL signer runtime (StateMachine + SignerRunner + real services over file-backed sqlite, real KES signer; sources of /repo/mithril-signer compiled unchanged through a shim crate that only drops the duplicate global allocator) with the REAL aggregator of mon-agg in one process: the signers use the repo's own AggregatorHttpClient and network configuration provider over a loopback listener to a fault-injecting front that forwards to the aggregator's real warp router. Seeded histories over several epochs (epoch changes with new stake distributions, immutables, blocks, dropped requests, lost replies, stale epoch settings, 'round not yet opened', aggregator down / restart, signer restart / stop over whole registration windows). Oracle over the boundary log: (E1) one acknowledged publication and one sigma per beacon, failed publications retried; (E2) every sigma verifies with mithril-stm under the key the signer registered two epochs earlier (model computed from the log only) and is accepted by the aggregator when timely; (E3) signatures only from ReadyToSign with an eligible registration; (E4) bounded resumption after restarts.",
+          "two liveness known findings printed as KNOWN-FINDING; restarts between ticks only; signer keys come from OsRng inside the code under test (schedules are seeded, sigma values differ between runs)",
+          "runtime monitor: boundary event log of two coupled real runtimes under injected faults, checked by a history checker", "DESIGN.md §2 C20"),
 ]
 
 ALL = [f"C{i:02d}" for i in range(1, 21)]
@@ -131,6 +135,7 @@ def main():
             {"name": "mon-wire", "path": "harness/mon-wire", "serves_properties": ["C04", "C05"], "kind_free_text": "certificate mutators / JSON round trips; decoder corpus in child processes with counting allocator"},
             {"name": "mon-client", "path": "harness/mon-client", "serves_properties": ["C10", "C19"], "kind_free_text": "real mithril-client over file:// served digests and archives; directory ground truth"},
             {"name": "mon-import", "path": "harness/mon-import", "serves_properties": ["C13"], "kind_free_text": "real chain importer + sqlite repositories driven by a chain-sync server model over a fork tree"},
+            {"name": "mon-signer", "path": "harness/mon-signer", "serves_properties": ["C20"], "kind_free_text": "real signer runtimes (shim-compiled /repo sources) against the real aggregator over a fault-injecting loopback front"},
             {"name": "mon-reg", "path": "harness/mon-reg", "serves_properties": ["C07"], "kind_free_text": "registration submissions with harness-made keys against the three real registration entry points"},
             {"name": "mon-beacon", "path": "harness/mon-beacon", "serves_properties": ["C17"], "kind_free_text": "grid + random evaluation of the beacon selection against an i128 oracle"},
             {"name": "mon-digest", "path": "harness/mon-digest", "serves_properties": ["C12"], "kind_free_text": "real immutable digester on harness-written databases; metamorphic + reference root"},
